@@ -170,6 +170,15 @@ def run_C01(tier, seed):
             msgs = [{"sig": sig, "what": f"strategy {st}: seeds of all expanded nodes vs all attractors of the network: {w['global_verdict']}{detail}"}]
         for msg in msgs:
             viol.append({"property": "C01", "signature": "C01:" + msg["sig"], "what": msg["what"], "case": w["case"], "failing_input": True})
+        tv = w["steps"][1].get("tape_verdict") if len(w["steps"]) > 1 else None
+        if tv is not None:
+            stats["tape_entries_checked"] = stats.get("tape_entries_checked", 0) + tv[0]
+            if tv[1] and not msgs:
+                what = ("attractor-seed expansion: a recorded NFVS does not hit every negative cycle of the successor it was computed for (hypothesis nfvs_log_ok of expand_aseeds_one_to_one)"
+                        if st[0] == "aseeds" else
+                        "block expansion: a block reported clean has a motif-avoidant attractor (hypothesis clean_log_ok of expand_block_one_to_one)")
+                viol.append({"property": "C01", "signature": "C01:tape-contract:" + st[0], "what": what + f"; {tv[1]} of {tv[0]} entries", "case": w["case"], "failing_input": False,
+                             "theorem_or_correspondence": "ASeedsFacts.expand_aseeds_one_to_one / BlockComplete.expand_block_one_to_one (tape contract)"})
         if not msgs and not w["case"].get("nomodel"):
             diffs = corr_diffs(w)
             if diffs:
